@@ -329,7 +329,9 @@ Annotated annotate(const Plan &p, uint64_t N) {
 			MV &v = V[o.v];
 			vt[{o.phase, o.v}].insert(o.task);
 			if (o.kind != LAST && (o.input < 0 || o.input >= (int)p.inputs.size())) return fail(i, "bad input index");
-			if ((o.kind == HASH || o.kind == FIRST) && v.batch) return fail(i, "op on a VM inside a batch");
+			// a single-call hash or a new first() on a VM with a batch in flight is legal (nothing in randomx.h
+			// forbids abandoning a batch); it abandons the pending hash, whose result is then never asked for
+			if ((o.kind == HASH || o.kind == FIRST) && v.batch) { pr["batch_abandoned"]++; v.batch = false; v.pending = -1; }
 			if ((o.kind == NEXT || o.kind == LAST) && !v.batch) return fail(i, "next/last without first");
 			std::string why = hashable(v, e, o.phase, o.task);
 			if (!why.empty()) return fail(i, why);
